@@ -62,7 +62,8 @@ def _history(draw, gen: int):
                 if draw(st.integers(0, 2)) == 0:
                     muts.append(["zone", draw(con.zone_state_strategy(gen, z))])
             ops.append(["outage", draw(st.sampled_from(["eof", "reset"])), draw(st.sampled_from([0, 0, 1, 2, 5, 20])),
-                        draw(st.sampled_from([0.0, 0.125, 1.0])), muts, draw(st.sampled_from([0.0, 0.0, 0.25, 1.5]))])
+                        draw(st.sampled_from([0.0, 0.125, 1.0])), muts, draw(st.sampled_from([0.0, 0.0, 0.25, 1.5])),
+                        draw(st.sampled_from([0, 0, 0, 1, 2, 3, 4, 5, 6]))])
         elif kind == "gap":
             ops.append(["advance", draw(st.sampled_from(GAPS))])
         elif kind == "push_zone" and zone_ids:
@@ -127,7 +128,7 @@ class Interp(apiops.ApiInterp):
         self.check_model("after pushed zone status")
         self.check_calls(["zone_status"], n0, b, exp_before, dict(self.desc))
 
-    def x_outage(self, how, k, lat, muts, answer_delay):
+    def x_outage(self, how, k, lat, muts, answer_delay, arm=0):
         rig, net, c = self.rig, self.rig.net, self.rig.console
         tr = self.tr
         if tr is None:
@@ -138,6 +139,12 @@ class Interp(apiops.ApiInterp):
         for _ in range(k):
             net.script.append(("refuse", 0.0))
         net.script.append(("accept", lat))
+        if arm:
+            # the connection that is accepted fails on its arm-th write, i.e. while the client is still writing its
+            # refresh requests from inside the 'connected' notification; the next attempt succeeds
+            net.arm_bytes_on_accept.append(3 * arm)   # byte offset 3..18: inside the two refresh frames on either generation
+            net.script.append(("accept", lat))     # the attempt that follows the failed connection takes as long again
+            self.nt.add("refresh-write-fails")
         c.behaviour = {"ac_status_req": [{"delay": answer_delay}] * 50, "zone_status_req": [{"delay": answer_delay}] * 50}
         c.step_count = {}
         # the console's state moves without the client being told (the link is about to go / is down)
@@ -150,7 +157,11 @@ class Interp(apiops.ApiInterp):
                 c.state[key][str(rec["number"])] = dict(rec)
         (tr.peer_eof if how == "eof" else tr.peer_reset)()
         rig.loop.settle()
-        rig.loop.advance(2.0 * k + lat)
+        rig.loop.advance(2.0 * k + lat + (lat if arm else 0.0))
+        net.script.clear()
+        for tr_ in net.conns:
+            tr_.fail_after = tr_.fail_at_byte = None      # a fault that did not fire while the refresh was written is disarmed (it would hit some
+        net.arm_on_accept.clear(); net.arm_bytes_on_accept.clear()      # later, unrelated write and start another outage in the middle of the judging)
         if self.tr is None or not rig.sock.is_connected:
             self.bad("no-reconnect", f"link lost, {k} refusals then accept after {lat} s: client not connected at t={rig.loop.time()}")
         new = self.tr
@@ -158,10 +169,12 @@ class Interp(apiops.ApiInterp):
         first = [(t, kind) for (t, cid, kind, _p, _f) in c.requests[n_req:] if cid == new.cid]
         kinds_at_open = [kd for t, kd in first if t == t_open]
         refresh = [kd for kd in kinds_at_open if kd in ("ac_status_req", "zone_status_req")]
-        if refresh != ["ac_status_req", "zone_status_req"]:
+        # (a refresh request that was left over from a connection attempt that failed a moment ago may precede them)
+        if not ({"ac_status_req", "zone_status_req"} <= set(refresh)):
             self.bad("no-refresh", f"connection re-established at t={t_open}: requests seen in that instant {kinds_at_open}, "
                                    f"expected an AC status request and a zone/group status request")
-        others_before = [kd for kd in kinds_at_open[:kinds_at_open.index("zone_status_req")] if kd not in ("ac_status_req", "zone_status_req")]
+        last_refresh = max(i for i, kd in enumerate(kinds_at_open) if kd in ("ac_status_req", "zone_status_req"))
+        others_before = [kd for kd in kinds_at_open[:last_refresh] if kd not in ("ac_status_req", "zone_status_req")]
         if others_before:
             self.bad("refresh-not-first", f"{others_before} were sent on the new connection before the refresh requests")
         rig.loop.advance(answer_delay + 0.125)
@@ -223,14 +236,25 @@ class Interp(apiops.ApiInterp):
                         if label.split(":")[-1] in ("zone_status_req", "zone_status") and t >= self.t0 and self._has_records(fr))
         pushes = {t for (t, _cid, label, fr) in c.sent if label == "push:zone_status"}
         downs = []   # (start, end) intervals during which the client is not connected
-        evs = sorted((e[0], e[1]) for e in net.log if e[1] in ("open", "closed") and e[0] >= self.t0)
+        # in log order (several connections may come and go within one instant): down from the close of the connection
+        # in use until the next connection that lasts beyond its own instant (or to the end)
+        evs = [(e[0], e[1]) for e in net.log if e[1] in ("open", "closed") and e[0] >= self.t0]
         cur = None
         for t, k in evs:
             if k == "closed":
-                cur = t
+                if cur is None:
+                    cur = t
             elif k == "open" and cur is not None:
                 downs.append((cur, t))
                 cur = None
+        downs = [(s_, e_) for s_, e_ in downs if e_ > s_] + ([(cur, float("inf"))] if cur is not None else [])
+        merged = []
+        for s_, e_ in sorted(downs):
+            if merged and s_ <= merged[-1][1]:
+                merged[-1] = (merged[-1][0], max(merged[-1][1], e_))
+            else:
+                merged.append((s_, e_))
+        downs = merged
 
         def down(t):
             return any(s <= t < e for s, e in downs)
@@ -293,7 +317,7 @@ def shards(tier: str):
 
 
 def floors(tier: str):
-    return {"outage": 200, "poll": 50, "state-changed-while-down": 100, "after-reinit": 150}
+    return {"outage": 200, "poll": 50, "state-changed-while-down": 100, "after-reinit": 150, "refresh-write-fails": 100}
 
 
 def run_shard(spec, seed: int, tier: str):
